@@ -72,3 +72,7 @@ Definition monotone (c : congress) : bool :=
 Definition after_interval_ok (seen : N) (c : congress) : bool :=
   rates_in_range c && averages_positive c &&
   (if N.leb seen (c_target c) then all_rates_one c else within_budget c && monotone c).
+
+(* ================================================================ how many draws emit *)
+(* for a rate num/den: the 24-bit draw k/2^24 is at most the rate *)
+Definition emits_k (num den k : N) : bool := (k * den <=? num * 2 ^ 24)%N.
